@@ -71,6 +71,13 @@ class GenericSystemRegistry(
         super()._init_dynamic_classes()
         self.System = create_class_with_registry(self, objects.System)
 
+    def __deepcopy__(self, memo):
+        new = super().__deepcopy__(memo)
+        # Same as for groups: rebind the copied systems to the new registry.
+        for system in new._systems.values():
+            system.__class__ = new.System
+        return new
+
     def _after_init(self) -> None:
         """Invoked at the end of ``__init__``.
 
